@@ -13,7 +13,7 @@ open GoZero.Extracted.C10
 theorem extraction_clean : extractionErrors = [] := by decide
 
 /-- `WithWorkers` clamps to 1, the driver's `minWorkers`. -/
-theorem tie_minWorkers : minWorkers = (GoZero.C10.minWorkers : Int) := by decide
+theorem tie_minWorkers : GoZero.Extracted.C10.minWorkers = (GoZero.C10.minWorkers : Int) := by decide
 
 /-- MapReduce = buildSource (generator goroutine) + mapReduceWithPanicChan. -/
 theorem tie_mapReduceShape : mapReduceShape =
@@ -78,15 +78,12 @@ theorem tie_guardedWriteShape : guardedWriteShape =
 theorem tie_newOnceChanShape : newOnceChanShape =
     ["return"] := by decide
 
-/-- onceChan.write: CAS on wrote, then the send (pwrite → psend) — the code as it is.  The second form is the
-proposed repair `fixes/C10-oncechan-write-atomic.patch` (`Props.generator_panic_can_be_lost`): a non-blocking
-send into the capacity-1 channel, i.e. the CAS form with the window between CAS and send closed (the winner
-sends at once); every run of it is a run of the model in which `psend` follows `pwrite` immediately, except
-that the buffer can be re-filled after the caller has emptied it, which nobody reads.  Both are accepted so
-that applying the repair does not break this check; the model keeps the weaker (CAS) form. -/
+/-- onceChan.write: ONE non-blocking send into the capacity-1 channel (`Model.stepA`: the CAS form with the window
+between "won" and "sent" closed).  Round 3 accepted the CAS form `if atomic.CompareAndSwapInt32(&oc.wrote, 0, 1) { send }`
+as well; since round 4 the full `Props4.panic_not_lost` is stated for the atomic form and is FALSE for the CAS form
+(`Props.generator_panic_can_be_lost`), so only the atomic form is accepted. -/
 theorem tie_onceChanWriteShape : onceChanWriteShape =
-    ["if atomic.CompareAndSwapInt32(&oc.wrote, 0, 1) {", "send oc.channel", "}"] ∨
-    onceChanWriteShape = ["select{", "case send oc.channel:", "default:", "}"] := by decide
+    ["select{", "case send oc.channel:", "default:", "}"] := by decide
 
 /-- onceChan.repanic: non-blocking receive, re-raise (CPc.check). -/
 theorem tie_onceChanRepanicShape : onceChanRepanicShape =
@@ -147,5 +144,189 @@ theorem tie_atomicErrorSetShape : atomicErrorSetShape =
 /-- AtomicError.Load returns the stored error or nil. -/
 theorem tie_atomicErrorLoadShape : atomicErrorLoadShape =
     ["call ae.err.Load", "if v != nil {", "return", "}", "return"] := by decide
+
+/-! ### round 4: the remaining entry points, the option plumbing, forwarded arguments -/
+
+/-- MapReduceChan = mapReduceWithPanicChan on the caller's source (no generator goroutine of the library: `Props4.chan_outcome`). -/
+theorem tie_mapReduceChanShape : mapReduceChanShape =
+    ["call mapReduceWithPanicChan", "return"] := by decide
+
+/-- Finish: empty → nil; generator sends every fn; mapper = fn() and cancel(err) iff err != nil; empty reducer; WithWorkers(len(fns)) → MapReduceVoid (`Spec.finishCfg`). -/
+theorem tie_finishShape : finishShape =
+    ["if len(fns) == 0 {", "return", "}", "func{", "range fns {", "send source", "}", "}", "func{", "call fn", "if err != nil {", "call cancel", "}", "}", "func{", "}", "call WithWorkers", "call MapReduceVoid", "return"] := by decide
+
+/-- FinishVoid: empty → return; generator sends every fn; mapper = fn(); WithWorkers(len(fns)) → ForEach (`Spec.forEachCfg`). -/
+theorem tie_finishVoidShape : finishVoidShape =
+    ["if len(fns) == 0 {", "return", "}", "func{", "range fns {", "send source", "}", "}", "func{", "call fn", "}", "call WithWorkers", "call ForEach"] := by decide
+
+/-- WithContext stores the context. -/
+theorem tie_withContextShape : withContextShape =
+    ["func{", "store opts.ctx", "}", "return"] := by decide
+
+/-- buildOptions applies EVERY option, in order (`Spec.workersOf`: the last WithWorkers wins). -/
+theorem tie_buildOptionsShape : buildOptionsShape =
+    ["range opts {", "call opt", "}", "return"] := by decide
+
+/-- newOptions only constructs. -/
+theorem tie_newOptionsShape : newOptionsShape =
+    ["call context.Background", "return"] := by decide
+
+/-- newGuardedWriter only constructs. -/
+theorem tie_newGuardedWriterShape : newGuardedWriterShape =
+    ["return"] := by decide
+
+/-- buildOptions starts from newOptions() — a fresh struct per call. -/
+theorem tie_buildOptionsInit : buildOptionsInit =
+    ["newOptions()"] := by decide
+
+/-- WithContext stores ITS argument into opts.ctx. -/
+theorem tie_withContextStores : withContextStores =
+    ["opts.ctx = ctx"] := by decide
+
+/-- newGuardedWriter forwards ctx / channel / done into the fields of the same name (Write selects on gw.ctx.Done() and gw.done, sends to gw.channel). -/
+theorem tie_newGuardedWriterFields : newGuardedWriterFields =
+    ["ctx: ctx", "channel: channel", "done: done"] := by decide
+
+/-- ForEach hands the dispatcher the options' context and worker count, its own source / panicChan / collector / done. -/
+theorem tie_forEachFields : forEachFields =
+    ["ctx: options.ctx", "mapper: func", "source: source", "panicChan: panicChan", "collector: collector", "doneChan: done", "workers: options.workers"] := by decide
+
+/-- the caller hands the dispatcher the options' context and worker count, the source, panicChan, collector and done. -/
+theorem tie_mapReduceWithPanicChanFields : mapReduceWithPanicChanFields =
+    ["ctx: options.ctx", "mapper: func", "source: source", "panicChan: panicChan", "collector: collector", "doneChan: done", "workers: options.workers"] := by decide
+
+/-- the reducer's writer guards `output` with the options' context and `done`. -/
+theorem tie_callerWriterArgs : callerWriterArgs =
+    ["options.ctx, output, done"] := by decide
+
+/-- the mappers' writer guards the collector with the same context and done channel. -/
+theorem tie_mapperWriterArgs : mapperWriterArgs =
+    ["mCtx.ctx, mCtx.collector, mCtx.doneChan"] := by decide
+
+/-- all options are forwarded to buildOptions. -/
+theorem tie_callerBuildOptionsArgs : callerBuildOptionsArgs =
+    ["opts..."] := by decide
+
+/-- all options are forwarded to buildOptions. -/
+theorem tie_forEachBuildOptionsArgs : forEachBuildOptionsArgs =
+    ["opts..."] := by decide
+
+/-- MapReduce forwards source, panicChan, mapper, reducer and ALL options. -/
+theorem tie_mapReduceForwardArgs : mapReduceForwardArgs =
+    ["source, panicChan, mapper, reducer, opts..."] := by decide
+
+/-- the generator goroutine writes its panic into the SAME panicChan the caller reads. -/
+theorem tie_mapReduceBuildSourceArgs : mapReduceBuildSourceArgs =
+    ["generate, panicChan"] := by decide
+
+/-- the generator goroutine writes its panic into the SAME panicChan the caller reads. -/
+theorem tie_forEachBuildSourceArgs : forEachBuildSourceArgs =
+    ["generate, panicChan"] := by decide
+
+/-- MapReduceChan forwards source, panicChan, mapper, reducer and ALL options. -/
+theorem tie_mapReduceChanForwardArgs : mapReduceChanForwardArgs =
+    ["source, panicChan, mapper, reducer, opts..."] := by decide
+
+/-- MapReduceVoid forwards generate, mapper, its wrapper reducer and ALL options. -/
+theorem tie_mapReduceVoidForwardArgs : mapReduceVoidForwardArgs =
+    ["generate, mapper, func, opts..."] := by decide
+
+/-- the reducer reads the collector, writes through the guarded writer, gets the once-cancel. -/
+theorem tie_reducerCallArgs : reducerCallArgs =
+    ["collector, writer, cancel"] := by decide
+
+/-- the mapper gets the item, the guarded writer and the once-cancel. -/
+theorem tie_mapperCallArgs : mapperCallArgs =
+    ["item, w, cancel"] := by decide
+
+/-- cancel drains the SOURCE, the reducer goroutine's deferred function the COLLECTOR, the panic case the OUTPUT. -/
+theorem tie_callerDrainArgs : callerDrainArgs =
+    ["source", "collector", "output"] := by decide
+
+/-- the dispatcher's deferred function drains the source. -/
+theorem tie_dispatcherDrainArgs : dispatcherDrainArgs =
+    ["mCtx.source"] := by decide
+
+/-- the mapper goroutine gets the item received from the source and the guarded writer. -/
+theorem tie_dispatcherMapperArgs : dispatcherMapperArgs =
+    ["item, writer"] := by decide
+
+/-- one wait-group unit per mapper goroutine (`stepDisp` .spawn: wg + 1). -/
+theorem tie_dispatcherWgAddArgs : dispatcherWgAddArgs =
+    ["1"] := by decide
+
+/-- the defaults: background context, defaultWorkers. -/
+theorem tie_newOptionsFields : newOptionsFields =
+    ["ctx: context.Background()", "workers: defaultWorkers"] := by decide
+
+/-- newOptions returns the address of a FRESH literal: no options struct is shared between calls. -/
+theorem tie_newOptionsReturns : newOptionsReturns =
+    ["&literal"] := by decide
+
+/-- the only package-level variables are the two sentinel errors: no state persists between calls or instances. -/
+theorem tie_packageVars : packageVars =
+    ["ErrCancelWithNil", "ErrReduceNoOutput"] := by decide
+
+/-! ### semantic ties (round 4): Go conditions / assignments translated to Lean functions by `extract/c10.go` and
+proven equal, for ALL arguments, to the functions the model and the driver use -/
+
+/-- `defaultWorkers` is the 16 of `Spec.defaultWorkersN` (a call without WithWorkers: `Spec.workersOf []`). -/
+theorem tie_defaultWorkers : GoZero.Extracted.C10.defaultWorkers = (GoZero.C10.defaultWorkersN : Int) := by decide
+
+/-- `WithWorkers(w)` stores `clampWorkers w` — comparison operator, both branches and the constant, for every w. -/
+theorem tie_withWorkers (w : Int) : GoZero.Extracted.C10.withWorkers w = (GoZero.C10.clampWorkers w : Int) := by
+  have hm : GoZero.Extracted.C10.minWorkers = 1 := rfl
+  unfold GoZero.Extracted.C10.withWorkers GoZero.C10.clampWorkers GoZero.C10.minWorkersN
+  rw [hm]
+  by_cases h : w < 1 <;> simp [h] <;> omega
+
+/-- the dispatcher goes on iff `failed = 0` (`stepDisp` .loop), and a recovered mapper panic adds exactly 1 (`.recovered`). -/
+theorem tie_dispatcherLoopCond (f : Nat) : GoZero.Extracted.C10.dispatcherLoopCond f = decide (f = 0) := by
+  unfold GoZero.Extracted.C10.dispatcherLoopCond
+  cases f <;> simp <;> omega
+
+theorem tie_dispatcherLoop_is_model (c : GoZero.C10.Cfg) (s : GoZero.C10.St) (h : s.dpc = .loop) :
+    GoZero.C10.stepDisp c s = some { s with dpc := if GoZero.Extracted.C10.dispatcherLoopCond s.failed then .sel else .wait } := by
+  unfold GoZero.C10.stepDisp
+  rw [h, tie_dispatcherLoopCond]
+  by_cases h0 : s.failed = 0 <;> simp [h0]
+
+theorem tie_failedDelta : GoZero.Extracted.C10.failedDelta = 1 := by decide
+
+/-- `AtomicError.Set` / `Load` are `Spec.aeSet` / `Spec.aeLoad` for every content and argument. -/
+theorem tie_atomicErrorSet (cur err : Option Nat) : GoZero.Extracted.C10.atomicErrorSet cur err = GoZero.C10.aeSet cur err := rfl
+theorem tie_atomicErrorLoad (cur : Option Nat) : GoZero.Extracted.C10.atomicErrorLoad cur = GoZero.C10.aeLoad cur := rfl
+
+/-- `cancel(err)` records err, or ErrCancelWithNil for nil (`Spec.cancelRecords`; model: `retErr := some (cancelErr e)`,
+`Props4.cancel_records_an_error`). -/
+theorem tie_cancelRecords (err : Option Nat) : GoZero.Extracted.C10.cancelRecords err = GoZero.C10.cancelRecords err := by
+  cases err <;> rfl
+
+/-- the caller's output branch: recorded error first, then the value, else ErrReduceNoOutput (`Spec.callerOutput`;
+model: `Props4.callerOutput_is_model`).  The order of the three tests is part of the equality. -/
+theorem tie_callerOutput (e : Option Nat) (ok : Bool) (v : Nat) :
+    GoZero.Extracted.C10.callerOutput e ok v = GoZero.C10.callerOutput e ok v := by
+  cases e <;> cases ok <;> rfl
+
+/-- the caller's context case cancels with and returns DeadlineExceeded (`stepCaller` .cancelEnter / .cdrain). -/
+theorem tie_callerCtxCase : GoZero.Extracted.C10.callerCtxCase =
+    (some (GoZero.C10.encErr .deadline), some (GoZero.C10.encErr .deadline)) := by decide
+
+/-- MapReduceVoid maps ErrReduceNoOutput (and only it) to nil (`Spec.voidReturn`, driver `showRes`). -/
+theorem tie_voidReturn (err : Option Nat) : GoZero.Extracted.C10.voidReturn err = GoZero.C10.voidReturn err := by
+  cases err <;> rfl
+
+/-- Finish / FinishVoid: return at once iff there is no function; pass WithWorkers(len(fns)) (`Spec.finishCfg`,
+`Spec.forEachCfg`); Finish's mapper cancels with the function's error iff it is not nil (`Spec.fnScript`). -/
+theorem tie_finishEmptyGuard (n : Nat) : GoZero.Extracted.C10.finishEmptyGuard n = decide (n = 0) := by
+  unfold GoZero.Extracted.C10.finishEmptyGuard; cases n <;> simp <;> omega
+theorem tie_finishVoidEmptyGuard (n : Nat) : GoZero.Extracted.C10.finishVoidEmptyGuard n = decide (n = 0) := by
+  unfold GoZero.Extracted.C10.finishVoidEmptyGuard; cases n <;> simp <;> omega
+theorem tie_finishWorkers (n : Nat) : GoZero.Extracted.C10.withWorkers (GoZero.Extracted.C10.finishWorkersArg n) = ((GoZero.C10.finishCfg (List.replicate n .ok)).workers : Int) := by
+  simp [GoZero.Extracted.C10.finishWorkersArg, tie_withWorkers, GoZero.C10.finishCfg]
+theorem tie_finishVoidWorkers (n : Nat) : GoZero.Extracted.C10.withWorkers (GoZero.Extracted.C10.finishVoidWorkersArg n) = (GoZero.C10.clampWorkers n : Int) := by
+  simp [GoZero.Extracted.C10.finishVoidWorkersArg, tie_withWorkers]
+theorem tie_finishMapperCancel (err : Option Nat) : GoZero.Extracted.C10.finishMapperCancel err = err.map some := by
+  cases err <;> rfl
 
 end GoZero.C10.Tie
